@@ -13,6 +13,7 @@
 From Coq Require Import List NArith Bool Sorted.
 From FS Require Import Sx Model.Path Model.Stat Model.Tree Model.AccEvents Model.SenderAcc
      Proofs.AccEventsP Proofs.SenderAccP.
+From FS Require Model.Lts Model.LtsAcc Proofs.LtsAccP5 Proofs.LtsAccP6.
 Import ListNotations.
 Open Scope N_scope.
 
@@ -97,7 +98,39 @@ Theorem progress_monotone_one_final : forall view served tr s b,
   exists tr0 n, tr = tr0 ++ [Progress n true; Return b] /\ Forall (fun p => snd p = false) (progress_of tr0).
 Proof. intros view served tr s b. exact (progress_proof _ tr s b). Qed.
 
+(* sender_lts_refines_acc: the acceptor is tied to the goroutine-level LTS of C04/C08
+   (Model/Lts.v: walker, workers, request loop, syncStream mutex, bounded stream).  For every
+   LTS instance p, expectation exp and chunking ch related by [LtsAcc.abs_ok] (same number of
+   entries; "file" = regular; ch i = non-empty chunks, e_chunks many, concatenating to the bytes
+   served for position i; at least one worker), every run of the LTS from its initial state
+   that contains no fault of the SENDER's environment (FS fault, cancellation of Send's
+   context, failure of the sender's endpoint; the receiver side may do anything the LTS
+   allows, faults included) produces at the sender's boundary - packets concretised by
+   [LtsAcc.sender_events] (the i-th STAT is the stat of exp[i], the c-th DATA of id h is chunk
+   c of ch h, received REQ id |-> Inp (PReq id), the deferred final progress call and the
+   return at g.Wait()) - a trace that the acceptor follows, and the acceptor has recorded the
+   return value of Send exactly when the LTS has.  Hence all theorems of this file hold of
+   those LTS runs. *)
+Theorem sender_lts_refines_acc :
+  forall (p : Lts.params) (exp : list entry) (ch : nat -> list bytes) (emsg rmsg : bytes) (fprog : N)
+         (ls : list Lts.label) (st : Lts.state),
+  LtsAcc.abs_ok p exp ch ->
+  LtsAcc.sender_fault_free ls = true ->
+  Lts.run p (Lts.init p) ls = Some st ->
+  exists a, sender_run exp (LtsAcc.lts_trace p exp ch emsg rmsg fprog (Lts.init p) ls) = Some a /\
+            s_ret a = Lts.send_ret st.
+Proof. intros p exp ch emsg rmsg fprog ls st Habs. exact (LtsAccP5.sender_lts_refines_acc_proof p exp ch emsg rmsg fprog Habs ls st). Qed.
+
+(* the abstraction is not vacuous: every expectation has an LTS instance and a chunking
+   (the real parameters 4 workers / 128 / 128 / 128, any stream capacities, one chunk per
+   non-empty file) *)
+Theorem lts_abstraction_exists : forall (exp : list entry) (capSR capRS : nat),
+  LtsAcc.abs_ok (LtsAcc.lts_params_of exp capSR capRS) exp (LtsAcc.one_chunk exp).
+Proof. exact LtsAccP6.abs_ok_params_of_proof. Qed.
+
 Print Assumptions one_stat_per_view_entry.
+Print Assumptions sender_lts_refines_acc.
+Print Assumptions lts_abstraction_exists.
 Print Assumptions stat_sequence.
 Print Assumptions data_per_request.
 Print Assumptions bad_ids_fail.
@@ -169,3 +202,17 @@ Example no_fin_no_success :
   sender_accepts exp0 [STAT 0; STAT 1; STAT 2; STAT 3; Out (PStat None); Progress 1 true; Return true] = None /\
   sender_accepts exp0 [STAT 0; Out PFin] = None.
 Proof. vm_compute. split; reflexivity. Qed.
+
+(* the LTS instance of exp0 (unbuffered stream), run by the first-enabled scheduler until
+   nothing moves (102 steps; the receiver is then draining the stream and waits for the
+   transport to close, an environment event): Send has returned success, and the boundary
+   trace of the sender - 4 STATs, end marker, both files requested and served, FIN echoed -
+   is an accepted complete trace *)
+Example lts_run_accepted :
+  let p := LtsAcc.lts_params_of exp0 0 0 in
+  let ls := LtsAcc.first_sched p 400 (Lts.init p) in
+  LtsAcc.sender_fault_free ls = true /\
+  option_map Lts.send_ret (Lts.run p (Lts.init p) ls) = Some (Some true) /\
+  sender_accepts exp0 (LtsAcc.lts_trace p exp0 (LtsAcc.one_chunk exp0) [] [] 0 (Lts.init p) ls) = Some true /\
+  data_out 1 (LtsAcc.lts_trace p exp0 (LtsAcc.one_chunk exp0) [] [] 0 (Lts.init p) ls) = [[1; 2; 3]; []].
+Proof. vm_compute. repeat split; reflexivity. Qed.
